@@ -167,7 +167,7 @@ DOMAIN[GP + 'GraphProcessor.fix_des_var'] = _domain_fix
 CLASSES['GraphProcessor'].update({'_sel_choice_idx_map': 'List[Int]', '_hierarchy_analyzer': 'Ref[HierarchyAnalyzerBase]'})
 
 CONTRACTS[GP + 'GraphProcessor._update_comb_fixed_mask'] = dict(
-    properties=['C15', 'C04'],
+    properties=['C15', 'C04', 'C05'],
     types={'self': 'Ref[GraphProcessor]'},
     locals={'fixed_choices': 'Dict[Int,Int]'},
     requires={'each-choice-has-at-most-one-variable': 'forall(a, 0, len(self._sel_choice_idx_map), forall(b, 0, len(self._sel_choice_idx_map), implies(a != b, self._sel_choice_idx_map[a] != self._sel_choice_idx_map[b])))'},
@@ -176,6 +176,7 @@ CONTRACTS[GP + 'GraphProcessor._update_comb_fixed_mask'] = dict(
         # the fixed choices are keyed by selection-choice index and carry the fixed option index
         'self._hierarchy_analyzer.get_available_combinations_mask': dict(
             params=['fixed_comb_idx'], types={'fixed_comb_idx': 'Dict[Int,Int]'}, returns='Ref', modifies=[],
+            ensures=['result == MASK(fixed_comb_idx)'],
             requires={
                 'every-fixed-selection-variable-passed-by-choice-index':
                     'forall(v, 0, len(self._sel_choice_idx_map), implies(v in self._fixed_values, self._sel_choice_idx_map[v] in fixed_comb_idx and fixed_comb_idx[self._sel_choice_idx_map[v]] == int(self._fixed_values[v])))',
@@ -188,7 +189,12 @@ CONTRACTS[GP + 'GraphProcessor._update_comb_fixed_mask'] = dict(
         'only-fixed-so-far': "forall('c:Int', implies(c in fixed_choices, exists(v, 0, k, self._sel_choice_idx_map[v] == c and v in self._fixed_values)))",
     })},
     post_locals=['fixed_choices'],
+    # MASK(fixed choices): what the analyzer answers for these fixed choices (uninterpreted)
+    funcs={'MASK': (['Dict[Int,Int]'], 'Ref')},
     ensures={
+        # on every path (also when nothing is fixed any more) the stored mask is the analyzer's answer for the current
+        # fixed choices: freeing the last fixed variable resets it
+        'stored-mask-is-the-answer-for-the-current-fixed-choices': ('property', 'self._comb_fixed_mask == MASK(final_fixed_choices)'),
         'fixed-selection-variables-keyed-by-choice-index': ('property', 'forall(v, 0, len(self._sel_choice_idx_map), implies(v in self._fixed_values, self._sel_choice_idx_map[v] in final_fixed_choices and final_fixed_choices[self._sel_choice_idx_map[v]] == int(self._fixed_values[v])))'),
         'nothing-else-restricted': ('property', "forall('c:Int', implies(c in final_fixed_choices, exists(v, 0, len(self._sel_choice_idx_map), self._sel_choice_idx_map[v] == c and v in self._fixed_values)))"),
     },
@@ -214,9 +220,12 @@ def _domain_update_mask(n):
             def get_available_combinations_mask(self, fixed):
                 captured.clear()
                 captured.update(fixed)
-                return None
+                return ('mask', frozenset(fixed.items()))
         gp._hierarchy_analyzer = An()
-        yield ({'self': gp, 'final_fixed_choices': captured},
+        gp._comb_fixed_mask = ('mask', 'left over from an earlier fix')
+        # the local `fixed_choices` is what a correct run passes to the analyzer: recomputed here from its definition
+        expect = {i_dec: int(gp._fixed_values[i_dv]) for i_dv, i_dec in enumerate(idx_map) if i_dv in gp._fixed_values}
+        yield ({'self': gp, 'final_fixed_choices': expect, 'MASK': (lambda d: ('mask', frozenset(d.items())))},
                (lambda gp=gp: GraphProcessor._update_comb_fixed_mask(gp)), {'Int': list(range(-1, 7))},
                f'_update_comb_fixed_mask(idx_map={idx_map}, fixed={gp._fixed_values})')
 
